@@ -468,6 +468,45 @@ func checkC05(c *Ctx) {
 			}
 		}
 	}
+	// a second systematic family: comparisons one of whose sides is an operand plus or minus a small literal, over every
+	// pair of operands, in every environment (one of them holds both ends of the int32 range): a comparison sees the
+	// wrapped sum
+	nlit := 0
+	for _, x := range []string{"a", "b", "c", "d", "e"} {
+		for _, y := range []string{"a", "b", "c", "d", "e"} {
+			for _, cmpOp := range c05CmpOps {
+				for li, lit := range [][]string{{"+", "1"}, {"-", "1"}, {"+", "2"}, {"-", "2"}} {
+					if (nlit+li)%c.pick(2, 1) != 0 {
+						continue
+					}
+					for side := 0; side < 2; side++ {
+						toks := []string{x, cmpOp, y, lit[0], lit[1]}
+						if side == 1 {
+							toks = []string{x, lit[0], lit[1], cmpOp, y}
+						}
+						src := strings.Join(toks, " ")
+						for env := range c05Envs {
+							ok, v, oty, errText := evalGoat(vms[env], src)
+							if (nlit+env)%2 == 1 {
+								ok, v, oty, errText = evalGoatLocals(c05Envs[env], src)
+							}
+							c.Evaluations++
+							if strings.HasPrefix(errText, "PANIC") || (!ok && !strings.HasPrefix(errText, "error in run")) {
+								c.violate(hashKey(src), fmt.Sprintf("expression `%s`: %s", src, firstLine(errText)), map[string]any{"expression": src, "error": errText})
+								continue
+							}
+							if oty == "" {
+								oty = "bool"
+							}
+							lines = append(lines, map[string]any{"toks": toks, "env": env + 1, "ok": ok, "val": v, "ty": oty, "src": src})
+						}
+						nlit++
+					}
+				}
+			}
+		}
+	}
+	c.Extra["literal_offset_comparisons"] = nlit
 	c.Extra["short_circuit_family_expressions"] = nfam
 	bad := classifySharded(c, "Trace_GoExpr", "Trace_GoExpr.cfg", lines, c.Workers)
 	for _, idx := range bad {
